@@ -133,7 +133,7 @@ Timeout(r) ==
 Race(r) ==
   /\ creq[r].st # "unsent" /\ creq[r].short /\ r \in alive /\ r \notin tmo /\ r \notin uans
   /\ uid[r] # 0 /\ uep[r] = epoch /\ stale = 0
-  /\ ~ \E h \in 1..Len(hist) : hist[h].op = "race"
+  /\ ~ \E h \in 1..Len(hist) : hist[h].op \in {"race", "racegone"}
   /\ LET res == ErrorReply(creq, r)
      IN creq' = res.cq /\ bad' = bad \cup res.v
   /\ tmo' = tmo \cup {r} /\ uans' = uans \cup {r}
@@ -142,6 +142,19 @@ Race(r) ==
   /\ stale' = r
   /\ hist' = Append(hist, [op |-> "race", r |-> r])
   /\ UNCHANGED <<udup, uid, uep, frameid, nextU, epoch, ghosted, closed>>
+
+(* ---- the same with the other way a request ends early: the client closes its connection while the answer to r is
+   held in its handler. Every request outstanding on that connection is abandoned (no reply is owed any more). *)
+RaceGone(r) ==
+  /\ creq[r].st = "open" /\ r \in alive /\ r \notin uans /\ uid[r] # 0 /\ uep[r] = epoch /\ stale = 0
+  /\ ~ \E h \in 1..Len(hist) : hist[h].op \in {"race", "racegone"}
+  /\ LET gone == { x \in Reqs : creq[x].st = "open" /\ creq[x].conn = creq[r].conn }
+     IN /\ creq' = [x \in Reqs |-> IF x \in gone THEN [creq[x] EXCEPT !.st = "gone"] ELSE creq[x]]
+        /\ alive' = alive \ gone
+        /\ ptab' = [x \in DOMAIN ptab \ { uid[g] : g \in gone } |-> ptab[x]]
+  /\ uans' = uans \cup {r} /\ stale' = r
+  /\ hist' = Append(hist, [op |-> "racegone", r |-> r])
+  /\ UNCHANGED <<udup, tmo, uid, uep, frameid, nextU, epoch, bad, ghosted, closed>>
 
 RECURSIVE ErrAll(_, _)
 ErrAll(cqb, S) == IF S = {} THEN cqb
@@ -161,7 +174,7 @@ UpClose ==
 
 Next == /\ Len(hist) < MaxSteps
         /\ \/ \E r \in Reqs, c \in Conns, m \in 0..NReq, s \in BOOLEAN : Send(r, c, m, s)
-           \/ \E r \in Reqs : UpAnswer(r) \/ UpDup(r) \/ Timeout(r) \/ Race(r)
+           \/ \E r \in Reqs : UpAnswer(r) \/ UpDup(r) \/ Timeout(r) \/ Race(r) \/ RaceGone(r)
            \/ Ghost \/ UpClose
 Spec == Init /\ [][Next]_vars
 
